@@ -1,0 +1,313 @@
+//go:build verif
+
+package nfsv4
+
+import (
+	"github.com/buildbarn/bb-remote-execution/pkg/filesystem/virtual"
+	"github.com/buildbarn/go-xdr/pkg/protocols/nfsv4"
+)
+
+// This file only exists in builds with the "verif" tag. It lets the
+// verification harness read the open/lock bookkeeping of the NFSv4.0 and
+// NFSv4.1 programs and of the OpenedFilesPool under their own locks, so
+// that it can be compared with the state of the formal model. Nothing in
+// here mutates state.
+
+// VerifLockOwnerFile describes one lock-owner file (lock state ID).
+type VerifLockOwnerFile struct {
+	// Owner is the address of the lock-owner object's owner field,
+	// i.e. the identity under which byte-range locks are stored in
+	// the lock table of the opened file.
+	Owner       *nfsv4.LockOwner4
+	OwnerKey    string
+	StateID     nfsv4.Stateid4
+	ShareAccess uint32
+	LockCount   int
+}
+
+// VerifOpenOwnerFile describes one open-owner file (open state ID).
+type VerifOpenOwnerFile struct {
+	Handle         []byte
+	StateID        nfsv4.Stateid4
+	ShareAccess    uint32
+	Readers        int
+	Writers        int
+	LockOwnerFiles []VerifLockOwnerFile
+}
+
+// VerifOpenOwner describes one open-owner.
+type VerifOpenOwner struct {
+	Key string
+	// NFSv4.0 only.
+	Confirmed             bool
+	LastSeqID             uint32
+	HasLastResponse       bool
+	HasClosedFile         bool
+	TransactionInProgress bool
+	Unused                bool
+	LastUsedUnixNano      int64
+
+	Files []VerifOpenOwnerFile
+}
+
+// VerifLockOwner describes one registered lock-owner object.
+type VerifLockOwner struct {
+	Owner     *nfsv4.LockOwner4
+	Key       string
+	FileCount int
+	// NFSv4.0 only.
+	LastSeqID       uint32
+	HasLastResponse bool
+}
+
+// VerifClient describes one client confirmation record (NFSv4.0) or
+// client incarnation (NFSv4.1).
+type VerifClient struct {
+	LongID           string
+	ClientVerifier   nfsv4.Verifier4
+	ShortID          uint64
+	Confirmed        bool
+	HoldCount        int
+	Idle             bool
+	LastSeenUnixNano int64
+	Sessions         int
+	OpenOwners       []VerifOpenOwner
+	LockOwners       []VerifLockOwner
+	// Sizes of the per-incarnation state ID maps (NFSv4.1).
+	OpenOwnerFilesByOther int
+	LockOwnerFilesByOther int
+}
+
+// VerifState is a snapshot of the bookkeeping of one program.
+type VerifState struct {
+	MinorVersion int
+	NowUnixNano  int64
+	Clients      []VerifClient
+	// Short client IDs in idle list order (head first).
+	IdleOrder []uint64
+	// NFSv4.0: unused open-owners in list order (head first).
+	UnusedOrder []VerifUnusedOpenOwner
+	// Sizes of the global maps.
+	ClientsByID           int
+	ClientRecordsByID     int
+	ClientRecordsByKey    int
+	Sessions              int
+	OpenOwnerFilesByOther int
+	LockOwnerFilesByOther int
+}
+
+// VerifUnusedOpenOwner identifies an entry of the NFSv4.0 unused
+// open-owners list.
+type VerifUnusedOpenOwner struct {
+	ShortID uint64
+	Key     string
+}
+
+// VerifDumpState returns a snapshot of the program's bookkeeping. The
+// second result is false if the program is neither of the two
+// implementations in this package.
+func VerifDumpState(program nfsv4.Nfs4Program) (*VerifState, bool) {
+	switch p := program.(type) {
+	case *nfs40Program:
+		return p.verifDump(), true
+	case *nfs41Program:
+		return p.verifDump(), true
+	default:
+		return nil, false
+	}
+}
+
+func (p *nfs40Program) verifDump() *VerifState {
+	p.lock.Lock()
+	defer p.lock.Unlock()
+
+	s := &VerifState{
+		MinorVersion:          0,
+		NowUnixNano:           p.now.UnixNano(),
+		ClientsByID:           len(p.clientsByLongID),
+		ClientRecordsByID:     len(p.clientConfirmationsByShortID),
+		ClientRecordsByKey:    len(p.clientConfirmationsByKey),
+		OpenOwnerFilesByOther: len(p.openOwnerFilesByOther),
+		LockOwnerFilesByOther: len(p.lockOwnerFilesByOther),
+	}
+	for ccs := p.idleClientConfirmations.nextIdle; ccs != &p.idleClientConfirmations; ccs = ccs.nextIdle {
+		s.IdleOrder = append(s.IdleOrder, ccs.key.shortClientID)
+	}
+	for oos := p.unusedOpenOwners.nextUnused; oos != &p.unusedOpenOwners; oos = oos.nextUnused {
+		s.UnusedOrder = append(s.UnusedOrder, VerifUnusedOpenOwner{
+			ShortID: oos.confirmedClient.confirmation.key.shortClientID,
+			Key:     oos.key,
+		})
+	}
+	for _, client := range p.clientsByLongID {
+		for _, ccs := range client.confirmationsByClientVerifier {
+			c := VerifClient{
+				LongID:           client.longID,
+				ClientVerifier:   ccs.clientVerifier,
+				ShortID:          ccs.key.shortClientID,
+				HoldCount:        ccs.holdCount,
+				Idle:             ccs.nextIdle != nil,
+				LastSeenUnixNano: ccs.lastSeen.UnixNano(),
+			}
+			if confirmedClient := client.confirmed; confirmedClient != nil && confirmedClient.confirmation == ccs {
+				c.Confirmed = true
+				for _, oos := range confirmedClient.openOwners {
+					o := VerifOpenOwner{
+						Key:                   oos.key,
+						Confirmed:             oos.confirmed,
+						LastSeqID:             oos.lastSeqID,
+						HasLastResponse:       oos.lastResponse != nil,
+						HasClosedFile:         oos.lastResponse != nil && oos.lastResponse.closedFile != nil,
+						TransactionInProgress: oos.currentTransactionWait != nil,
+						Unused:                oos.nextUnused != nil,
+						LastUsedUnixNano:      oos.lastUsed.UnixNano(),
+					}
+					for _, oofs := range oos.filesByHandle {
+						f := VerifOpenOwnerFile{
+							Handle:      oofs.openedFile.GetHandle(),
+							StateID:     p.externalizeStateID(oofs.stateID),
+							ShareAccess: uint32(oofs.shareAccess),
+							Readers:     int(oofs.shareCount.readers),
+							Writers:     int(oofs.shareCount.writers),
+						}
+						for los, lofs := range oofs.lockOwnerFiles {
+							f.LockOwnerFiles = append(f.LockOwnerFiles, VerifLockOwnerFile{
+								Owner:       &los.owner,
+								OwnerKey:    string(los.owner.Owner),
+								StateID:     p.externalizeStateID(lofs.stateID),
+								ShareAccess: uint32(lofs.shareAccess),
+								LockCount:   lofs.lockCount,
+							})
+						}
+						o.Files = append(o.Files, f)
+					}
+					c.OpenOwners = append(c.OpenOwners, o)
+				}
+				for key, los := range confirmedClient.lockOwners {
+					c.LockOwners = append(c.LockOwners, VerifLockOwner{
+						Owner:           &los.owner,
+						Key:             key,
+						FileCount:       len(los.files),
+						LastSeqID:       los.lastSeqID,
+						HasLastResponse: los.lastResponse != nil,
+					})
+				}
+			}
+			s.Clients = append(s.Clients, c)
+		}
+	}
+	return s
+}
+
+func (p *nfs41Program) verifDump() *VerifState {
+	p.clientsLock.Lock()
+	defer p.clientsLock.Unlock()
+
+	s := &VerifState{
+		MinorVersion:      1,
+		NowUnixNano:       p.now.UnixNano(),
+		ClientsByID:       len(p.clientsByOwnerID),
+		ClientRecordsByID: len(p.clientIncarnationsByClientID),
+		Sessions:          len(p.sessionsBySessionID),
+	}
+	for cis := p.idleClientIncarnations.nextIdle; cis != &p.idleClientIncarnations; cis = cis.nextIdle {
+		s.IdleOrder = append(s.IdleOrder, cis.clientID)
+	}
+	for _, client := range p.clientsByOwnerID {
+		for _, cis := range client.incarnationsByClientVerifier {
+			c := VerifClient{
+				LongID:           client.ownerID,
+				ClientVerifier:   cis.clientVerifier,
+				ShortID:          cis.clientID,
+				Confirmed:        client.confirmedIncarnation == cis,
+				HoldCount:        cis.holdCount,
+				Idle:             cis.nextIdle != nil,
+				LastSeenUnixNano: cis.lastSeen.UnixNano(),
+			}
+			for ss := cis.sessions.next; ss != &cis.sessions; ss = ss.next {
+				c.Sessions++
+			}
+			cis.lock.RLock()
+			c.OpenOwnerFilesByOther = len(cis.openOwnerFilesByOther)
+			c.LockOwnerFilesByOther = len(cis.lockOwnerFilesByOther)
+			s.OpenOwnerFilesByOther += len(cis.openOwnerFilesByOther)
+			s.LockOwnerFilesByOther += len(cis.lockOwnerFilesByOther)
+			for _, oos := range cis.openOwnersByOwner {
+				o := VerifOpenOwner{Key: oos.key}
+				for _, oofs := range oos.filesByHandle {
+					f := VerifOpenOwnerFile{
+						Handle:      oofs.openedFile.GetHandle(),
+						StateID:     oofs.stateID.externalize(),
+						ShareAccess: uint32(oofs.shareAccess),
+						Readers:     int(oofs.shareCount.readers),
+						Writers:     int(oofs.shareCount.writers),
+					}
+					for los, lofs := range oofs.lockOwnerFiles {
+						f.LockOwnerFiles = append(f.LockOwnerFiles, VerifLockOwnerFile{
+							Owner:       &los.owner,
+							OwnerKey:    string(los.owner.Owner),
+							StateID:     lofs.stateID.externalize(),
+							ShareAccess: uint32(lofs.shareAccess),
+							LockCount:   lofs.lockCount,
+						})
+					}
+					o.Files = append(o.Files, f)
+				}
+				c.OpenOwners = append(c.OpenOwners, o)
+			}
+			for key, los := range cis.lockOwnersByOwner {
+				c.LockOwners = append(c.LockOwners, VerifLockOwner{
+					Owner:     &los.owner,
+					Key:       key,
+					FileCount: int(los.fileCount),
+				})
+			}
+			cis.lock.RUnlock()
+			s.Clients = append(s.Clients, c)
+		}
+	}
+	return s
+}
+
+// VerifPoolLock describes one entry of the byte-range lock table of an
+// opened file.
+type VerifPoolLock struct {
+	Owner *nfsv4.LockOwner4
+	Start uint64
+	End   uint64
+	Type  virtual.ByteRangeLockType
+}
+
+// VerifPoolFile describes one entry of the OpenedFilesPool.
+type VerifPoolFile struct {
+	Handle   []byte
+	UseCount int
+	Locks    []VerifPoolLock
+}
+
+// VerifDump returns a snapshot of the files in the pool together with
+// their byte-range lock tables (in table order).
+func (ofp *OpenedFilesPool) VerifDump() []VerifPoolFile {
+	ofp.lock.RLock()
+	defer ofp.lock.RUnlock()
+
+	var out []VerifPoolFile
+	for _, of := range ofp.filesByHandle {
+		f := VerifPoolFile{
+			Handle:   of.handle,
+			UseCount: int(of.useCount),
+		}
+		of.locksLock.RLock()
+		for _, l := range of.locks.VerifDump() {
+			f.Locks = append(f.Locks, VerifPoolLock{
+				Owner: l.Owner,
+				Start: l.Start,
+				End:   l.End,
+				Type:  l.Type,
+			})
+		}
+		of.locksLock.RUnlock()
+		out = append(out, f)
+	}
+	return out
+}
